@@ -341,6 +341,6 @@ def run_batch(scenarios):
         else:
             agree = impl_line == m_ans
             model_line = m_ans
-        out.append(dict(sc=sc, model=model_line, impl=impl_line, agree=agree, faulty=faulty, line=lines[i],
+        out.append(dict(sc=sc, model=model_line, impl=impl_line, agree=agree, faulty=faulty, line=lines[i], conc=conc, printed=printed,
                         model_r=parse_result(model_line), impl_r=parse_result(impl_line)))
     return out
